@@ -24,3 +24,11 @@ Definition g_sequtil_codonToAmino (k : list N) : N :=
     end
   | _ => 0
   end.
+
+(* aminoToName[b]: the two names AminoName(b) returned for the upper-case letter b, read out
+   for all 256 bytes by gen-tables; None where it panicked (no such key).  AminoName folds
+   lower case to upper case before the lookup, so the read-out at an upper-case letter is the
+   map entry itself. *)
+Definition g_sequtil_aminoToName (b : N) : option (list N * list N) :=
+  if (97 <=? b) && (b <=? 122) then None
+  else match nth_error amino_tab (N.to_nat b) with Some (Some names) => Some names | _ => None end.
